@@ -111,6 +111,9 @@ class ConcreteEngine:
             raise PathEnd()
         return False
 
+    def holds(self, cond):
+        return bool(cond)
+
     def witness(self, name):
         self.witnesses[name] = self.witnesses.get(name, 0) + 1
 
